@@ -504,7 +504,7 @@ func (fr *Frame) execUnOp(ins *ssa.UnOp, st *State) {
 func (fr *Frame) ptrFact(v ssa.Value, st *State) {
 	vc := fr.vc
 	switch v.Type().Underlying().(type) {
-	case *types.Pointer:
+	case *types.Pointer, *types.Chan, *types.Map:
 		vc.assumeIf(fr.curReach, fmt.Sprintf("(< %s %s)", fr.vals[v].S, vc.get(st, vc.allocComp())))
 	case *types.Slice:
 		vc.assumeIf(fr.curReach, fmt.Sprintf("(< (sl_ref %s) %s)", fr.vals[v].S, vc.get(st, vc.allocComp())))
